@@ -7,7 +7,7 @@ import ast
 
 from .. import e1, symslice
 from ..astx import self_attr, walk_no_nested, dotted, call_name, parent, dominating_conditions, flatten_conditions, \
-    func_params, kwarg
+    func_params, kwarg, ancestors
 from ..core import norm, Inconclusive
 
 
@@ -78,10 +78,14 @@ def r01a(ctx):
                                   f"as well (or surplus elements are dropped)")
             else:
                 empty = isinstance(v, (ast.Tuple, ast.List)) and not v.elts
-                if not empty:
+                if not empty and tails:
                     ctx.violation("R01a", init.file, "FixedLengthSequenceEdit.__init__", s, f"{attr} (no surplus)",
                                   f"self.{attr} = {norm(v)} outside the longer-list branch: nothing may be {what} then")
-        if tails != 1:
+        if tails == 0:
+            ctx.inconclusive("R01a", init.file, "FixedLengthSequenceEdit.__init__", init.node, f"{attr} tails=0",
+                             f"self.{attr} is no longer built as a slice of the longer list; the positional-tail clause "
+                             f"cannot be decided for this shape")
+        elif tails > 1:
             ctx.violation("R01a", init.file, "FixedLengthSequenceEdit.__init__", init.node, f"{attr} tails={tails}",
                           f"expected exactly one surplus-tail assignment to self.{attr}, found {tails}")
     # paired part: zip(from, to) with from_child.edits(to_child)
@@ -100,6 +104,9 @@ def r01a(ctx):
     if ok:
         ctx.proved("R01a", init.file, "FixedLengthSequenceEdit.__init__", init.node, "positional pairs",
                    f"sub-edits are from_child.edits(to_child) over zip({frm}, {to})")
+    elif any(isinstance(c, ast.Call) and (call_name(c) or "").endswith("zip_longest") for c in walk_no_nested(init.node)):
+        ctx.inconclusive("R01a", init.file, "FixedLengthSequenceEdit.__init__", init.node, "positional pairs",
+                         "pairs are produced by zip_longest; this shape is not modelled")
     else:
         ctx.violation("R01a", init.file, "FixedLengthSequenceEdit.__init__", init.node, "positional pairs",
                       f"the paired part is not `a.edits(b) for a, b in zip({frm}, {to})`: elements are not paired strictly by position")
@@ -248,7 +255,7 @@ def r01b(ctx):
             tri = s.value.elts
         if tri is not None:
             steps.append((s, tri))
-    ctx.floor("R01b-steps", len(steps), 5, "predecessor triples in _best_match")
+    ctx.floor("R01b-steps", len(steps), 3, "predecessor triples in _best_match")
     for s, (br, bc, ed) in steps:
         n_ob += 1
         ir, ic = _idx(br), _idx(bc)
@@ -309,7 +316,7 @@ def r01b(ctx):
     else:
         ctx.violation("R01b", f, "EditDistance.edits", rets[-1] if rets else edits.node, "emission order",
                       "the script is not (shared prefix matches, reversed back-trace, shared suffix matches): list order is not preserved")
-    ctx.floor("R01b", n_ob, 14, "alignment obligations")
+    ctx.floor("R01b", n_ob, 10, "alignment obligations")
 
 
 # ------------------------------------------------------------------------------------------------ R01c
@@ -436,7 +443,7 @@ def r01c(ctx):
     else:
         ctx.proved("R01c", ed.file, "MultiSetEdit.edits", ed.node, "edits() groups",
                    "yields _edits, _matched_kvp_edits, matcher pairs, Remove over to_remove - matched, Insert over to_insert - matched")
-    ctx.floor("R01c", n, 8, "multiset partition obligations")
+    ctx.floor("R01c", n, 6, "multiset partition obligations")
 
 
 def _same_guard(a, b):
@@ -517,6 +524,16 @@ def r01d(ctx):
     else:
         ctx.violation("R01d", f.file, "FixedKeyDictNode._child_edits", fl[0] if fl else f.node, "foreign pairs",
                       "pairs of the other mapping are not inserted exactly once when (and only when) their key is absent")
+    n += 1
+    exits = [x for x in walk_no_nested(f.node) if isinstance(x, (ast.Return, ast.Break))]
+    if exits:
+        ctx.violation("R01d", f.file, "FixedKeyDictNode._child_edits", exits[0], "visits every pair",
+                      f"`{norm(exits[0], 40)}` (line {exits[0].lineno}) lets the generator stop before every own and every "
+                      f"foreign pair has been visited: pairs after that point get no edit (e.g. inserted keys are lost when "
+                      f"keys are also removed)")
+    else:
+        ctx.proved("R01d", f.file, "FixedKeyDictNode._child_edits", f.node, "visits every pair",
+                   "no return/break: both loops run over all pairs")
     ctx.floor("R01d", n, 3, "keyed partition obligations")
 
 
@@ -674,7 +691,7 @@ def r01g(ctx):
         and "edit.on_diff(ret)" in src and src.rstrip().endswith("returnret")
     # on_diff must not be conditional
     od = [c for c in walk_no_nested(d.node) if isinstance(c, ast.Call) and isinstance(c.func, ast.Attribute) and c.func.attr == "on_diff"]
-    uncond = od and not dominating_conditions(od[0])
+    uncond = od and not [a for a in ancestors(od[0]) if isinstance(a, (ast.If, ast.While, ast.For, ast.ExceptHandler, ast.IfExp))]
     if ok and uncond:
         ctx.proved("R01g", d.file, "TreeNode.diff", d.node, "diff pushes the script",
                    "edited copy -> edits(node) -> refine loop -> edit.on_diff(ret) unconditionally -> return ret")
@@ -695,8 +712,57 @@ def r01g(ctx):
                           "PLISTNode.edits does not diff self.root against the other wrapper's root")
 
 
+def r01h(ctx):
+    m = ctx.model
+    ctx.rule("R01h", "presence of a node is never tested by truthiness in edit constructors: container nodes define "
+                     "__len__/__bool__, so an empty list, mapping or CSV row is falsy and would be treated as absent")
+    n = 0
+    edit_classes = [q for q in m.classes if m.method(q, "tighten_bounds") and m.method(q, "on_diff")
+                    and not m.is_subclass(q, "graphtage.tree.TreeNode")]
+    for q in sorted(edit_classes):
+        for name in ("__init__", "edits"):
+            if name not in m.attrs[q] or m.attrs[q][name][0] != "def":
+                continue
+            f = m.attrs[q][name][1]
+            # names bound by iterating node sequences (zip / zip_longest / children of parameters)
+            params = set(func_params(f.node)[1:])
+            nodevars = set()
+            for x in walk_no_nested(f.node):
+                it = tg = None
+                if isinstance(x, ast.For):
+                    it, tg = x.iter, x.target
+                elif isinstance(x, ast.comprehension):
+                    it, tg = x.iter, x.target
+                if it is None:
+                    continue
+                roots = {y.id for y in ast.walk(it) if isinstance(y, ast.Name)}
+                if roots & params and (isinstance(it, ast.Name) or (isinstance(it, ast.Call) and (call_name(it) or "").split(".")[-1]
+                                                                    in ("zip", "zip_longest", "children", "reversed", "enumerate"))):
+                    nodevars |= {y.id for y in ast.walk(tg) if isinstance(y, ast.Name)}
+            if not nodevars:
+                continue
+            for t in walk_no_nested(f.node):
+                tests = []
+                if isinstance(t, (ast.If, ast.While, ast.IfExp)):
+                    tests = [t.test]
+                for test in tests:
+                    operands = test.values if isinstance(test, ast.BoolOp) else [test]
+                    for o in operands:
+                        if isinstance(o, ast.UnaryOp) and isinstance(o.op, ast.Not):
+                            o = o.operand
+                        if isinstance(o, ast.Name) and o.id in nodevars:
+                            n += 1
+                            ctx.violation("R01h", f.file, f.short, t, f"truthiness of {o.id}",
+                                          f"`{norm(test, 60)}` tests node `{o.id}` by truthiness; an empty container node is "
+                                          f"falsy (len 0), so an element that is present but empty is treated as missing and "
+                                          f"drops out of the edit script")
+    if n == 0:
+        ctx.proved("R01h", "-", "-", None, "no truthiness tests on nodes", "edit constructors test node presence with `is None` only")
+
+
 def run(ctx):
     r01a(ctx)
+    r01h(ctx)
     r01b(ctx)
     r01c(ctx)
     r01d(ctx)
